@@ -6,3 +6,4 @@ cp /verif/coq/Extract/ocaml/*.ml /verif/coq/Extract/ocaml/*.mli /verif/ocaml/*.m
 cd $B
 ocamlfind ocamlopt -O3 -w -a gen.mli gen.ml zconv.ml gendriver.ml -o /verif/build/bin/gendriver 2>/dev/null || ocamlfind ocamlopt -w -a gen.mli gen.ml zconv.ml gendriver.ml -o /verif/build/bin/gendriver
 if [ -f sched.ml ]; then ocamlfind ocamlopt -w -a sched.mli sched.ml zconvs.ml scheddriver.ml -o /verif/build/bin/scheddriver; fi
+if [ -f misc.ml ]; then ocamlfind ocamlopt -w -a misc.mli misc.ml miscdriver.ml -o /verif/build/bin/miscdriver; fi
